@@ -12,6 +12,16 @@ class FilePressureProfile(ArrayPressureProfile):
         read_arr = np.loadtxt(filename, usecols=int(usecols), skiprows=int(skiprows),delimiter=delimiter,dtype=np.float64
                               )
         super().__init__(read_arr*to_Pa,reverse=reverse)
+        self._file_args = dict(filename=filename, usecols=usecols,
+                               skiprows=skiprows, units=units,
+                               delimiter=delimiter, reverse=reverse)
+
+    def write(self, output):
+        pressure = super().write(output)
+        for key, value in self._file_args.items():
+            if value is not None:
+                pressure.write_scalar(key, value)
+        return pressure
 
 
     @classmethod
